@@ -24,7 +24,7 @@ ASSUMPTIONS = [
 ]
 CHUNK = 8
 ALPHA = [b"a", b"\n", b"\xff", b"\x00"]
-PRIMS = ["a", "a b", "", "ü", 0, -1, 1.5, True, False, 1e-15, 0.1 + 0.2, "caf\udce9"]   # the last one: a str as os.listdir() returns it for a non-UTF-8 file name
+PRIMS = ["a", "a b", "", "ü", 0, -1, 1.5, True, False, 1e-15, 0.1 + 0.2, "caf\udce9", float("inf")]   # the last one: a str as os.listdir() returns it for a non-UTF-8 file name
 
 
 def warmup():
@@ -34,6 +34,11 @@ def warmup():
 
 
 from ..threads import ScriptedPipe as _SP
+
+
+def vkmod_current():
+    from .. import vk as vkmod
+    return vkmod.CURRENT["vk"]
 
 
 def ScriptedPipe(chunks):
@@ -200,8 +205,23 @@ def run_item(item, tier):
                 res["evals"] += 1
                 cond = 'run_experiment(name="e", run="./e.sh", parallelizable=%s)\n' % (mode == "slot")
                 scn = {"files": {"COND": cond}, "argv": ["run", "//:e"] + (["-j", "2"] if mode == "slot" else []),
-                       "behaviours": {"//:e": {"stdout": so, "stderr": se, "sigint_while_running": True, "abort_signal": signame}}}
-                o = explore.execute(scn, name="c10i", timeout=20)
+                       # (the task leaves a background process that holds stdout open until Conductor waits for the output: the
+                       # copying threads cannot be done before Conductor decides how to exit - no race in the observation)
+                       "behaviours": {"//:e": {"stdout": so, "stderr": se, "linger": "", "sigint_while_running": True, "abort_signal": signame}}}
+                import concurrent.futures as cf
+                real_result = cf.Future.result
+
+                def result(self_, timeout=None):
+                    vk_ = vkmod_current()
+                    if vk_ is not None:
+                        vk_.release_lingering()
+                    return real_result(self_, timeout)
+
+                cf.Future.result = result
+                try:
+                    o = explore.execute(scn, name="c10i", timeout=20)
+                finally:
+                    cf.Future.result = real_result
                 art = {"kind": "interrupted", "out": item["out"], "err": item["err"]}
                 sp = [e for e in o.vk.log if e[0] == "spawn"]
                 if not sp:
@@ -210,6 +230,8 @@ def run_item(item, tier):
                 outdir = sp[0][3]["out"]
                 res["sigs"].add(explore.sig(["interrupted", item["out"], item["err"], mode, signame]))
                 for fname, want in (("stdout.log", so.encode("latin-1")), ("stderr.log", se.encode("latin-1"))):
+                    if o.res.hard_exit is not None and fname == "stderr.log":
+                        continue    # stderr was closed by the dying task: whether its thread finished first is a race
                     if o.res.hard_exit is not None:
                         # the process ended with os._exit(): what counts is what was on disk at that instant
                         got = o.res.hard_exit[1].get(os.path.relpath(os.path.join(outdir, fname), os.path.join(o.root, "cond-out")))
